@@ -1177,3 +1177,50 @@ def t_unregister_frame(gname):
         return w, thunk, {"graph": gname}
 
     return build
+
+
+def t_next_resolve(which, nargs):
+    """Ovld.resolve / Ovld.next: the table is consulted with the key (subtler_type(a) for each argument, in order), prefixed
+    by the caller's code object for next; the function is built first if needed; next calls what it found with the same
+    arguments (C07 / C14: class-valued arguments are keyed by type[...], never by their metaclass)."""
+
+    def build():
+        w = CoreWorld()
+        install_common(w)
+        looked = []
+
+        class KeyedMap(MapObj):
+            def py_getitem(self, I, key):
+                looked.append(key)
+                return Builtin("found_method", lambda I, *a, **k: ("called", a, k))
+
+        w.set_global("core", "subtler_type", Builtin("subtler_type", lambda I, x: ("subtler_type", x)))
+        caller_code = Tok("caller_code")
+        w.set_global("core", "sys", ModuleV("sys", {"_getframe": Builtin("_getframe", lambda I, depth=0: Tok("frame", f_code=caller_code, depth=depth))}))
+        w.set_global("core", "map", Builtin("map", lambda I, f, xs: [I.call(f, [x], {}) for x in xs]))
+        w.type_of = lambda I, x: ("type", x)  # type(x): a different key entry from subtler_type(x)
+
+        def thunk(I):
+            w.reset()
+            del looked[:]
+            o = mk_ovld(w, "o", [], False, compiled=True, locked=False, defns={}, I=I)
+            m_ = KeyedMap(w, "tbl", None)
+            o.f["map"] = m_
+            args = [Tok(f"arg{i}") for i in range(nargs)]
+            r = I.call_repo(f"core:Ovld.{which}", [o] + args, {})
+            want = tuple(("subtler_type", a) for a in args)
+            I.require(len(looked) == 1, "the_table_is_consulted_exactly_once")
+            if len(looked) != 1:
+                return
+            key = looked[0]
+            if which == "next":
+                I.require(isinstance(key, tuple) and len(key) == nargs + 1 and key[0] is caller_code, "key_starts_with_the_code_object_of_the_calling_method")
+                I.require(isinstance(key, tuple) and tuple(key[1:]) == want, "key_holds_the_subtler_type_of_every_argument_in_order")
+                I.require(isinstance(r, tuple) and r[0] == "called" and list(r[1]) == args and not r[2], "the_method_found_is_called_with_the_same_arguments")
+            else:
+                I.require(isinstance(key, tuple) and tuple(key) == want, "key_holds_the_subtler_type_of_every_argument_in_order")
+                I.require(isinstance(r, Builtin), "resolve_returns_what_the_table_holds")
+
+        return w, thunk, {"which": which, "nargs": nargs}
+
+    return build
